@@ -675,8 +675,8 @@ pub fn run(cfg: &RunCfg) -> Report {
     if !with_head {
         rep.assumptions.push("HEAD requests excluded from pipelines while C02/codec-context-per-connection is a listed finding".into());
     }
-    explore(&mut rep, cfg, "valid", cfg.cases(100_000, 2_000_000), || case_strategy(false, with_head), |c| run_case(cfg, c, false));
-    explore(&mut rep, cfg, "malformed", cfg.cases(100_000, 2_000_000), || case_strategy(true, with_head), |c| run_case(cfg, c, false));
+    explore(&mut rep, cfg, "valid", cfg.cases(200_000, 4_000_000), || case_strategy(false, with_head), |c| run_case(cfg, c, false));
+    explore(&mut rep, cfg, "malformed", cfg.cases(200_000, 4_000_000), || case_strategy(true, with_head), |c| run_case(cfg, c, false));
     rep
 }
 
